@@ -23,6 +23,26 @@ def dom(name, run_mod, nq, nt, model=True):
 
 
 PROPS = {
+    "C09": {
+        "domains": [
+            {
+                "name": "c09",
+                "run_vo": "Model/RunSearch.vo",
+                "n_quick": 20,
+                "n_thorough": 400,
+                "model": True
+            }
+        ],
+        "trusted": [
+            "the storage is MODELLED: it evaluates the rewritten condition literally (substr/=/<>/AND/OR over byte strings); harness/vh/pgeval.go is its twin on the pg_query parse tree of the REAL rewritten statement",
+            "selection of the comparisons to rewrite (FilterSearchableComparisons, table/alias resolution, joins) is covered by correspondence and oracle only, not by proof",
+            "SQL literal / bound-parameter decoding (PgQueryDBDataCoder.Decode, pgBoundValue.GetData) is exercised by the harness, not modelled",
+            "HMAC-SHA-256 (Lib/Sha256.v) is an executable definition validated against Go's crypto/hmac on every replayed case; no injectivity is assumed, exactness theorems are reductions to an explicit collision"
+        ],
+        "assumptions": [
+            "none beyond the hypotheses written in each theorem (no Correct C law is needed)"
+        ]
+    },
     "C10": {
         "domains": [
             {
